@@ -230,12 +230,13 @@ class VEnum(SV):
 
 class VRef(SV):
     """reference to a heap record (object / list / dict / set / lock)"""
-    __slots__ = ("oid", "kind", "cls")
+    __slots__ = ("oid", "kind", "cls", "from_list")
 
     def __init__(self, oid, kind, cls=None):
         self.oid = oid
         self.kind = kind
         self.cls = cls
+        self.from_list = None       # symbolic list this reference was taken from (min/max with a key): list.remove(x) then cannot fail
 
     def __repr__(self):
         return f"Ref({self.kind}:{self.cls}#{self.oid})"
